@@ -384,6 +384,29 @@ func printerPrograms(w *W, f func(src string, cmds []ast.Command)) {
 		}
 		one(ss, render(ss))
 	})
+	// the repetition family: one construct repeated or nested n = 1 … 16 (thorough 40) times
+	printerFamily = "REP"
+	maxRep := 16
+	if w.thorough() {
+		maxRep = 40
+	}
+	for n := 1; n <= maxRep; n++ {
+		if !w.Mine() || w.TimeUp() {
+			continue
+		}
+		for _, src := range repetitionSources(n) {
+			w.Announce(src)
+			cmds, _, err := parseAll(src)
+			if err != nil || len(cmds) == 0 {
+				continue
+			}
+			quiesce()
+			w.Count("states", 1)
+			w.Count("repetition_sources", 1)
+			w.Count("distinct_nontrivial", 1)
+			f(src, cmds)
+		}
+	}
 	seen := map[string]bool{}
 	derivations(w.thorough(), func(name string, texts []string) {
 		if name == "D3" && !w.thorough() || name == "WG" && len(texts) > 3 {
